@@ -42,7 +42,11 @@ F(key, t) == [key |-> key, t |-> t, kslot |-> ""]
 FK(key, t, kslot) == [key |-> key, t |-> t, kslot |-> kslot]      \* the key itself is kept in an AST field
 Mp(sec, cs, emptyOk, fields, open, kslot, req, miss) ==
   [k |-> "map", sec |-> sec, cs |-> cs, emptyOk |-> emptyOk, fields |-> fields, open |-> open, kslot |-> kslot,
-   req |-> req, miss |-> miss, keyErrAt |-> "key"]
+   req |-> req, miss |-> miss, keyErrAt |-> "key", kinds |-> <<>>]
+\* kinds of a node: [name, when (the node is of this kind if one of these keys is present), deny (keys of the
+\* key set that are not available in a node of this kind: reported as a key conflict), soft (keys GitHub
+\* documents as unavailable but for which the reading of the docs is not certain: drift-only)]
+Kind(name, when, deny, soft) == [name |-> name, when |-> when, deny |-> deny, soft |-> soft]
 Alt(s, q, m) == [k |-> "alt", s |-> s, q |-> q, m |-> m]
 RawT == [k |-> "raw"]
 
@@ -137,6 +141,18 @@ CallT ==
         F("outputs", Mp("outputs", FALSE, TRUE, <<>>, CallOutputT, "WorkflowCallEventOutput.Name", <<>>, "node")) >>,
      None, "", <<>>, "node")
 
+\* Keys of the webhook key set that are NOT available for an event ("Events that trigger workflows": activity
+\* types per event; branches filters for push / pull_request(_target) / workflow_run / merge_group; tags filters for
+\* push; paths filters for push / pull_request(_target); workflows for workflow_run).  Only the events that occur
+\* in the base workflows are listed.
+AllFilters == {"branches", "branches-ignore", "tags", "tags-ignore", "paths", "paths-ignore"}
+EventDeny == [push |-> {"types", "workflows"},
+              pull_request |-> {"tags", "tags-ignore", "workflows"},
+              pull_request_target |-> {"tags", "tags-ignore", "workflows"},
+              workflow_run |-> {"tags", "tags-ignore", "paths", "paths-ignore"},
+              release |-> AllFilters \cup {"workflows"},
+              fork |-> AllFilters \cup {"workflows", "types"}]
+
 EventName == Sc("event-name", <<"WebhookEvent.Hook">>)
 OnT == Alt(EventName, Sq("on", EventName, FALSE),
            Mp("on", TRUE, FALSE,
@@ -191,7 +207,7 @@ ServicesT == Alt(Sc("expr", <<"Services.Expression">>), None,
                  Mp("services", FALSE, FALSE, <<>>, ContainerT("services"), "Service.Name", <<>>, "node"))
 
 StepT ==
-  Mp("step", TRUE, FALSE,
+  [Mp("step", TRUE, FALSE,
      << F("id", Sc("id", <<"Step.ID">>)), F("if", Sc("ifcond", <<"Step.If">>)), F("name", T("Step.Name")),
         F("env", EnvT), F("continue-on-error", Sc("bool", <<"Step.ContinueOnError">>)),
         F("timeout-minutes", Sc("float", <<"Step.TimeoutMinutes">>)),
@@ -201,10 +217,12 @@ StepT ==
                      T("Input.Value"), "Input.Name", <<>>, "node")),
         F("run", Sc("script", <<"ExecRun.Run">>)), F("shell", Sc("shell", <<"ExecRun.Shell">>)),
         F("working-directory", T("ExecRun.WorkingDirectory")) >>,
-     None, "", <<{"run"}, {"uses"}>>, "node")
+     None, "", <<{"run"}, {"uses"}>>, "node") EXCEPT !.kinds =
+       << Kind("action", {"uses", "with"}, {"run", "shell", "working-directory"}, {}),
+          Kind("run", {"run", "shell"}, {"uses", "with"}, {}) >>]
 
 JobT ==
-  Mp("job", TRUE, FALSE,
+  [Mp("job", TRUE, FALSE,
      << F("name", T("Job.Name")),
         F("needs", StrOrSeq("needs", "needs-id", "Job.Needs")),
         F("runs-on", RunsOnT), F("permissions", PermT), F("environment", EnvironmentT),
@@ -218,7 +236,12 @@ JobT ==
         F("secrets", Alt(Sc("inherit", <<>>), None,
                          Mp("secrets", FALSE, FALSE, <<>>, T("WorkflowCallSecret.Value"), "WorkflowCallSecret.Name",
                             <<>>, "node"))) >>,
-     None, "", <<{"runs-on", "steps"}, {"uses"}>>, "parentkey")
+     None, "", <<{"runs-on", "steps"}, {"uses"}>>, "parentkey") EXCEPT !.kinds =
+       \* "Supported keywords for jobs that call a reusable workflow": name, uses, with, secrets, strategy, needs,
+       \* if, concurrency, permissions
+       << Kind("call", {"uses"}, {"runs-on", "environment", "outputs", "env", "defaults", "steps", "timeout-minutes",
+                                  "continue-on-error", "container"}, {"services"}),
+          Kind("steps", {"runs-on", "steps"}, {"with", "secrets", "uses"}, {}) >>]
 
 Root ==
   Mp("workflow", TRUE, FALSE,
@@ -332,6 +355,8 @@ WF(t) ==
          /\ \A i, j \in DOMAIN t.fields : i # j => t.fields[i].key # t.fields[j].key
          /\ \A a \in DOMAIN t.req : t.req[a] # {} /\ t.req[a] \subseteq {t.fields[i].key : i \in DOMAIN t.fields}
          /\ t.miss \in {"doc", "parentkey", "node"} /\ t.keyErrAt \in {"key", "item"}
+         /\ \A i \in DOMAIN t.kinds : (t.kinds[i].when \cup t.kinds[i].deny \cup t.kinds[i].soft)
+                                          \subseteq {t.fields[j].key : j \in DOMAIN t.fields}
          /\ (t.open.k # "none") = (t.kslot # "")
          /\ (t.fields = <<>> => t.open.k # "none")
          /\ \A i \in DOMAIN t.fields : WF(t.fields[i].t)
@@ -458,6 +483,7 @@ B3 == M(<<
                     <<"paths-ignore", Q(<<S("docs/**")>>)>> >>)>>,
      <<"pull_request_target", M(<< <<"branches", Q(<<S("main")>>)>>, <<"paths", S("src/**")>> >>)>>,
      <<"workflow_dispatch", Null>>,
+     <<"fork", Null>>,
      <<"repository_dispatch", M(<< <<"types", S("deploy")>> >>)>>,
      <<"release", M(<< <<"types", Q(<<S("published")>>)>> >>)>> >>)>>,
   <<"permissions", S("read-all")>>,
